@@ -34,6 +34,8 @@ fi
 for sd in seeded/$PROP-v*; do
   [ -f "$sd/patch.diff" ] || continue
   if grep -q "still not caught" "$sd/meta.json" 2>/dev/null; then continue; fi
+  # a seed that a later repair of /repo made harmless (its demonstration passes with it) is not a violation
+  if grep -q '"neutralised": true' "$sd/meta.json" 2>/dev/null; then continue; fi
   total=$((total+1))
   scratch=$(mktemp -d "${TMPDIR:-/tmp}/ndndcanary.XXXXXX")
   mkdir -p "$scratch/repo" "$scratch/verif"
